@@ -51,6 +51,9 @@ static inline void gen_ilu_options(Rng &r, Op &o) {
     o.thresh = r.chance(0.5) ? 0.1 : (r.chance(0.5) ? 1.0 : 0.01);
     o.refine = NOREFINE; o.symmode = (o.symmode && (o.rhs_seed & 4)) ? 1 : 0; // symmetric mode (ilu_heap_relax_snode) in half of the cases that drew it
     if (o.colperm == MY_PERMC && r.chance(0.5)) o.colperm = COLAMD;
+    // the fill factor sizes the initial arrays (fill factor x nnz(A)): half of the ILU calls take it from a fine grid 1.00 .. 3.99
+    // (derived from the call's own seed, no extra draw), so that "array exactly full at this column" is met at many different columns
+    if ((o.rhs_seed >> 33) & 1) o.fillfactor = 1.0 + (double)((o.rhs_seed >> 34) % 300) / 100.0;
 }
 
 static inline std::string op_brief(const Op &o) {
